@@ -92,6 +92,8 @@ try:
             if rc != 0:
                 return (kind, name, 'skipped', 'patch no longer applies to the current tree')
             rc, o = sh(f'{BIN} -repo {src} -property {prop} -verif {vd}')
+            if 'replay=load-failed' in o:
+                return (kind, name, 'skipped', 'the patched tree no longer type-checks')
             viol = [l for l in o.splitlines() if l.startswith('VIOLATION')]
             detail = [l.strip() for l in o.splitlines() if l.startswith('  ') and '.go:' in l][:3]
             if kind == 'kill':
